@@ -68,6 +68,22 @@ CLAIMED["C06"] = dict(
     design="DESIGN.md section 3, C06",
 )
 
+CLAIMED["C05"] = dict(
+    category="other",
+    technique="static structural rules on typed HIR/MIR: call-shape matching with argument order, sibling-family agreement over pattern-selected regions, memo typestate via dominators + key provenance, arm algebra for the status combiner",
+    text=("Decides structural necessary conditions of correct assignability decisions on every path of the engine: the "
+          "definitional one-liners (is_subtype = is_empty(diff(a,b)) with that argument order, is_same_type both directions, "
+          "complement = unknown \\ x); family agreement (INV-ATOM): a region selected by one of the four atom families only "
+          "touches that family's tables/accessors/constructors (this rule found the named-tuple memo bug, repaired by a fix: "
+          "commit); co-inductive memo typestate of both emptiness entry points (lookup first, Undefined read as IsEmpty, "
+          "in-progress mark dominates the recursive computation, same key updated afterwards); polarity of the BDD path walk "
+          "and the conjunction table of and_empty_status (truth table)."),
+    note=("Trusted: rustc typed HIR/MIR, the family naming scheme. Not decided: the emptiness procedures themselves "
+          "(Frisch's Phi' on lists, exact-vs-open mapping difference, index signatures) - value-level correctness of all "
+          "atom tables has no sound static argument in reach; relies on C06 for the set operations."),
+    design="DESIGN.md section 3, C05",
+)
+
 NOT_APPLICABLE_REASON = {}
 
 
